@@ -11,6 +11,9 @@ pub mod c05;
 pub mod c09;
 pub mod c10;
 pub mod c11;
+pub mod c12;
+pub mod c13;
+pub mod c14;
 pub mod c19;
 
 pub type PropList = Vec<(Box<dyn PropDyn>, u32, u32)>;
@@ -59,6 +62,24 @@ pub fn all() -> Vec<Check> {
             props: c11::props,
             describe: c11::describe,
             sweeps: Some(c11::sweeps),
+        },
+        Check {
+            id: "C12",
+            props: c12::props,
+            describe: c12::describe,
+            sweeps: None,
+        },
+        Check {
+            id: "C13",
+            props: c13::props,
+            describe: c13::describe,
+            sweeps: None,
+        },
+        Check {
+            id: "C14",
+            props: c14::props,
+            describe: c14::describe,
+            sweeps: None,
         },
         Check {
         id: "C19",
